@@ -76,35 +76,49 @@ func Yield(tag string) {
 	}
 }
 
-type RWMutex struct{ mu sync.RWMutex }
+// RWMutex delegates to a real sync.RWMutex when no scheduler is installed.  sw/sr
+// count holds that were granted by a scheduler, so that an unlock running late
+// (deferred, while a run is being torn down) never reaches the real mutex.
+type RWMutex struct {
+	mu     sync.RWMutex
+	sw, sr int32
+}
 
 func (m *RWMutex) Lock() {
-	if S == nil {
-		m.mu.Lock()
+	if s := S; s != nil {
+		s.Lock(m, true)
+		atomic.AddInt32(&m.sw, 1)
 		return
 	}
-	S.Lock(m, true)
+	m.mu.Lock()
 }
 func (m *RWMutex) Unlock() {
-	if S == nil {
-		m.mu.Unlock()
+	if atomic.LoadInt32(&m.sw) > 0 {
+		atomic.AddInt32(&m.sw, -1)
+		if s := S; s != nil {
+			s.Unlock(m, true)
+		}
 		return
 	}
-	S.Unlock(m, true)
+	m.mu.Unlock()
 }
 func (m *RWMutex) RLock() {
-	if S == nil {
-		m.mu.RLock()
+	if s := S; s != nil {
+		s.Lock(m, false)
+		atomic.AddInt32(&m.sr, 1)
 		return
 	}
-	S.Lock(m, false)
+	m.mu.RLock()
 }
 func (m *RWMutex) RUnlock() {
-	if S == nil {
-		m.mu.RUnlock()
+	if atomic.LoadInt32(&m.sr) > 0 {
+		atomic.AddInt32(&m.sr, -1)
+		if s := S; s != nil {
+			s.Unlock(m, false)
+		}
 		return
 	}
-	S.Unlock(m, false)
+	m.mu.RUnlock()
 }
 
 // Mutex is modelled as an RWMutex that is only ever write-locked.
